@@ -46,6 +46,9 @@ H('k3_time_until_is_saturating_difference', 'time_until', ['tarpc/src/util.rs::<
   'time_until(d) == saturating (d - now), total for all instants (loop-free, full domain under A-clock)', stubs=CLK)
 H('k3_max_timer_delay_value', 'time_until', ['tarpc/src/util.rs::MAX_TIMER_DELAY'],
   'the real clamp constant equals the value assumed by the Verus model and lies within the DelayQueue range; Duration::min clamps')
+H('k3_deadline_field_always_renderable', 'time_until', ['tarpc/src/util.rs::deadline_rfc3339'],
+  'the rpc.deadline span field helper never overflows and never hands humantime an unrenderable timestamp (R12)',
+  stubs=CLK + ['std::time::SystemTime::now -> symbolic wall clock'])
 # ---- K2 deadline codec (C07, C16)
 H('k2_deadline_written_as_remaining_time', 'deadline_codec', ['tarpc/src/context.rs::absolute_to_relative_time::serialize'],
   'written Duration == saturating (deadline - now)', stubs=CLK)
